@@ -19,6 +19,7 @@ type Outcome[R any] struct {
 	Result   *R
 	Crashed  bool   // the child died (panic, fatal error, signal) while this case was open
 	TimedOut bool   // the watchdog fired while this case was open
+	Deadlock string // non-empty when the watchdog's goroutine dump shows the main goroutine parked on a lock in git-bug code
 	Site     string // stable crash site (PanicSite)
 	Excerpt  string // first lines of the crash / goroutine dump
 }
@@ -117,6 +118,9 @@ func runBatches[C any, R any](bin, childName string, cases []C, batch int, perCa
 			}
 			out[open].Crashed = !cr.TimedOut
 			out[open].TimedOut = cr.TimedOut
+			if cr.TimedOut {
+				out[open].Deadlock = mon.ClassifyDump(cr.Out)
+			}
 			out[open].Site = mon.PanicSite(cr.Out)
 			out[open].Excerpt = mon.CrashExcerpt(cr.Out)
 			if cr.ExitCode == 3 || cr.ExitCode == 127 {
